@@ -43,7 +43,7 @@ def main():
     runs = []
     allv = []
     engine_error = None
-    budget = {'quick': 420, 'thorough': 3300}[tier]
+    budget = {'quick': 1200, 'thorough': 3300}[tier]
     tv_every = {'quick': 7, 'thorough': 3}[tier]
     try:
         for pl in plans:
